@@ -26,7 +26,7 @@ def translate(R, h):
         os.remove(probe)
     if h is not None:
         env = vlib.goenv(); env.update(VERIF_OUT=probe)
-        rc, o = vlib.sh([h, "-test.run", "TestProbeConsts", "-test.count=1", "-test.timeout=2m"], env=env, timeout=300, cwd=R.work)
+        rc, o = vlib.sh([h, "-test.run", "TestProbeConsts", "-test.count=1", "-test.timeout=0"], env=env, timeout=3600, cwd=R.work)   # failure = NOTE only
         if rc != 0:
             R.notes.append("translator: the constants probe aborted (%s); reference values kept; the correspondence run decides" % o.strip()[-200:])
     rc, o = vlib.sh([sys.executable, os.path.join(vlib.VERIF, "translators", "pitcs", "consts.py"), probe, out], timeout=60)
@@ -81,14 +81,23 @@ def run_harness(R, h, n, seed, mode, tag, ops_file=None, corpus=None):
         env["VERIF_OPS"] = ops_file
     if corpus:
         env["VERIF_CORPUS"] = corpus
-    rc, out = vlib.sh([h, "-test.run", "TestTrace", "-test.count=1", "-test.timeout=40m"], env=env, timeout=2700, cwd=R.work)
+    # No wall-clock limit decides a verdict: the Go test timeout is off and the outer limit is a last-resort safety net whose
+    # expiry is only a NOTE.  A hang of the code under test is proven by state inside the harness (operation counter stuck while
+    # the process burns CPU: exit status 3 and <trace>.hang with the history), see pitcs_test.go startWatchdog.
+    if os.path.exists(trace + ".hang"):
+        os.remove(trace + ".hang")
+    rc, out = vlib.sh([h, "-test.run", "TestTrace", "-test.count=1", "-test.timeout=0"], env=env, timeout=14400, cwd=R.work)
     if rc != 0:
+        if rc == 3 and os.path.exists(trace + ".hang"):
+            return None, "HANG-PROVEN\n" + open(trace + ".hang", errors="replace").read()[:6000]
+        if rc == 124:
+            return None, "WALL-LIMIT the harness did not finish within the safety limit (machine load?)"
         return None, out
     return trace, out
 
 
 def run_runner(exe, trace):
-    rc, out = vlib.sh("%s < %s" % (exe, trace), timeout=2700)
+    rc, out = vlib.sh("%s < %s" % (exe, trace), timeout=14400)     # the model is total: only slowness can hit this safety net
     return rc, out
 
 
@@ -199,8 +208,16 @@ def run_family(R, pid, modes, n_quick, n_thorough):
         tr, out = run_harness(R, h, per, R.seed * 1000 + len(results), mode, mode, corpus=corpus_dir if first else None)
         first = False
         if tr is None:
-            R.oracle_failure("harness-crash:" + mode, "the Go harness aborted (panic in the implementation or deadlock in the bubble)",
-                             dict(output=out[-3000:], mode=mode, seed=R.seed))
+            if out.startswith("WALL-LIMIT"):
+                R.notes.append("mode %s: %s; no verdict from this mode" % (mode, out))
+                R.coverage.setdefault("incomplete_modes", []).append(mode)
+            elif out.startswith("HANG-PROVEN"):
+                hist = [l for l in out.split("--- stacks ---")[0].split("\n")[2:] if l.strip()]
+                R.oracle_failure("hang-proven:" + mode, "one operation of the implementation never finished while consuming CPU (proven by state: operation counter stuck, > 20 s CPU burnt)",
+                                 dict(mode=mode, seed=R.seed, ops=hist, stacks=out.split("--- stacks ---")[-1][:3000]))
+            else:
+                R.oracle_failure("harness-crash:" + mode, "the Go harness aborted (panic in the implementation outside an operation, or the runtime proved a deadlock in the bubble)",
+                                 dict(output=out[-3000:], mode=mode, seed=R.seed))
             continue
         rc, o = run_runner(exe, tr)
         cases = split_cases(tr)
@@ -214,6 +231,10 @@ def run_family(R, pid, modes, n_quick, n_thorough):
             if len(c["kinds"]) >= 3 and c["changed"]:
                 totals["nontrivial"].add(hashlib.sha1("\n".join(c["gen"]).encode()).hexdigest())
         if "DONE" not in o:
+            if rc == 124:
+                R.notes.append("mode %s: the runner did not finish within the safety limit (machine load?); no verdict from this mode" % mode)
+                R.coverage.setdefault("incomplete_modes", []).append(mode)
+                continue
             R.proof_problems.append("runner did not finish on mode %s: %s" % (mode, o[-300:]))
         seen = set()
         for l in o.split("\n"):
